@@ -63,6 +63,15 @@ Theorem C03_buffered_stream_all :
 Proof. exact C03_buffered_stream_all_proof. Qed.
 Print Assumptions C03_buffered_stream_all.
 
+(* ThreadedBufferedStream<FileWriter> (shard's output streams), data path: the blocks handed to the
+   writer thread and written by it in order add up to the concatenation of the writes, for every
+   block size >= 1 (the in-order, lossless hand-off between the two threads is property C16) *)
+Theorem C03_threaded_buffered_stream_all :
+  forall ws bsize script, 1 <= bsize -> no_err script = true ->
+  exists o', tbs_run ws bsize (os_init [] script) = (Ok tt, o') /\ os_sink o' = concat ws.
+Proof. exact C03_threaded_buffered_stream_all_proof. Qed.
+Print Assumptions C03_threaded_buffered_stream_all.
+
 (* ReadCompressed(fd).ReadOrEOF on uncompressed data *)
 Theorem C03_read_compressed_plain_all :
   forall amount src script, no_err script = true -> detect_magic src = false ->
